@@ -15,6 +15,10 @@ from typing import Any, Callable, Dict, List, Optional
 ROOT = os.path.dirname(os.path.dirname(os.path.abspath(__file__)))
 EVIDENCE_DIR = os.path.join(ROOT, "evidence")
 REPLAY_DIR = os.path.join(ROOT, "replays")
+if os.environ.get("VF_REPO"):
+    # experiments against a scratch worktree never touch the registered evidence
+    EVIDENCE_DIR = os.path.join("/tmp", "vf_scratch", "evidence")
+    REPLAY_DIR = os.path.join("/tmp", "vf_scratch", "replays")
 KNOWN_FILE = os.path.join(ROOT, "KNOWN_FINDINGS.txt")
 
 EXIT_OK, EXIT_VIOLATION, EXIT_HARNESS = 0, 1, 3
